@@ -2,6 +2,7 @@
 
 import copy
 import logging
+import math
 
 from ...base import builtins as bi
 from ...base import stream as stm
@@ -260,7 +261,12 @@ class Pconst(FilterPattern):
             while True:
                 value = stream.next(inval)
                 next_sum = sum + value
-                if bi.roundup(next_sum, tolerance) >= local_sum:
+                # The multiple of tolerance can fall short of local_sum
+                # by rounding (3 * 0.3 < 0.9).
+                rounded = bi.roundup(next_sum, tolerance)
+                if rounded >= local_sum or (
+                        tolerance
+                        and math.isclose(rounded, local_sum, rel_tol=1e-9)):
                     inval = yield local_sum - sum
                     return inval
                 sum = next_sum
